@@ -470,7 +470,7 @@ def shrink_candidates(c):
 def run(ctx):
     proof = core.coq_properties("C15")
     ctx.say("proof stage: ok=%s theorems=%d audit=%d (%.1fs)" % (proof["ok"], len(proof["theorems"]), len(proof["audit"]), proof.get("wall_s", 0)))
-    n = ctx.scale(1200, 30000)
+    n = ctx.scale(1200, 12000)
     cases = [gen_case(ctx.rng) for _ in range(n)] + [gen_case(ctx.rng, ap=True) for _ in range(n // 3)]
     okg, logg, impl = core.go_build("sim", test=True)
     _impl[0] = impl
